@@ -1,0 +1,81 @@
+//! Verification hooks: conversions between the private policy types and plain values.
+use ip::{concrete::PrefixRange, Afi};
+
+use super::{Candidate, Evaluated, Installed, Policies, Ranges};
+
+/// `(policy name, filter expression)` pairs, sorted by name.
+pub(crate) fn candidates_to_plain(policies: &Policies<Candidate>) -> Vec<(String, String)> {
+    let mut plain = policies
+        .map
+        .iter()
+        .map(|(name, candidate)| (name.to_string(), candidate.filter_expr.to_string()))
+        .collect::<Vec<_>>();
+    plain.sort();
+    plain
+}
+
+fn ranges_to_plain<A: Afi>(ranges: &Ranges<A>) -> Vec<String> {
+    let mut plain = ranges
+        .iter()
+        .map(|range| format!("{},{},{}", range.prefix(), range.lower(), range.upper()))
+        .collect::<Vec<_>>();
+    plain.sort();
+    plain
+}
+
+/// `(policy name, ipv4 ranges, ipv6 ranges)` triples, sorted by name.
+pub(crate) fn installed_to_plain(
+    policies: &Policies<Installed>,
+) -> Vec<(String, Vec<String>, Vec<String>)> {
+    let mut plain = policies
+        .map
+        .iter()
+        .map(|(name, installed)| {
+            (
+                name.to_string(),
+                ranges_to_plain(&installed.ipv4),
+                ranges_to_plain(&installed.ipv6),
+            )
+        })
+        .collect::<Vec<_>>();
+    plain.sort();
+    plain
+}
+
+fn ranges_from_plain<A: Afi>(plain: &[String]) -> anyhow::Result<Ranges<A>> {
+    plain
+        .iter()
+        .map(|range| {
+            range
+                .parse::<PrefixRange<A>>()
+                .map_err(|err| anyhow::anyhow!("bad range '{range}': {err}"))
+        })
+        .collect()
+}
+
+/// Evaluate candidates through a harness-supplied function of `(name, expression)` instead of an
+/// IRR connection. `None` stands for a failed evaluation.
+pub(crate) fn evaluate_with(
+    policies: Policies<Candidate>,
+    eval: &(dyn Fn(&str, &str) -> Option<(Vec<String>, Vec<String>)> + Send + Sync),
+) -> anyhow::Result<Policies<Evaluated>> {
+    let map = policies
+        .map
+        .into_iter()
+        .map(|(name, candidate)| {
+            let ranges = eval(name.as_ref(), &candidate.filter_expr.to_string())
+                .map(|(ipv4, ipv6)| {
+                    Ok::<_, anyhow::Error>((ranges_from_plain(&ipv4)?, ranges_from_plain(&ipv6)?))
+                })
+                .transpose()?;
+            Ok((
+                name,
+                Evaluated {
+                    filter_expr: candidate.filter_expr,
+                    ranges,
+                },
+            ))
+        })
+        .collect::<anyhow::Result<_>>()?;
+    Ok(Policies { map })
+}
